@@ -929,7 +929,31 @@ def abi_phases(V):
     rp = [c for c in synq.method_calls(arm.body, "return_pointer")]
     rp_pre = all(start(c) < start(cw[0]) for c in rp)
     # GetArg is emitted only by call / post_return themselves, never inside a block
-    getarg_fns = sorted(f for f in gen if any(n == "GetArg" for n, _ in synq.constructed(gen[f].body, ["GetArg"])))
+    getarg_all = sorted(f for f in gen if any(n == "GetArg" for n, _ in synq.constructed(gen[f].body, ["GetArg"])))
+    # a private Generator method every caller of which (anywhere in abi.rs, transitively) is call / post_return is part
+    # of call / post_return: it runs at their function scope
+    allfns = [f for f in synq.all_fns(ABI) if f.body is not None]
+
+    def callers(name):
+        out = set()
+        for f in allfns:
+            hit = [m for m in synq.method_calls(f.body, name)] + \
+                  [c for c in synq.fn_calls(f.body, name) if c["func"]["path"] in (f"Self::{name}", f"Generator::{name}")]
+            if hit:
+                out.add((f.self_ty, f.name))
+        return out
+    accepted = {"call", "post_return"}
+    changed = True
+    while changed:
+        changed = False
+        for g in getarg_all:
+            if g in accepted or gen[g].node.get("vis", "") != "":
+                continue
+            cs = callers(g)
+            if cs and all(ty == "Generator" and nm in accepted for ty, nm in cs):
+                accepted.add(g)
+                changed = True
+    getarg_fns = sorted({"call" if (g in accepted and g not in ("call", "post_return")) else g for g in getarg_all})
     return dict(V=V, lower=lower, lift=lift, pre=pre, post=post, rp=len(rp), rp_pre=rp_pre, getarg_fns=getarg_fns,
                 lower_fns=lower_fns, lift_fns=lift_fns, shared=shared)
 
@@ -1116,27 +1140,96 @@ def run(rep, tier):
 
 
 # ------------------------------------------------------------------------------------------------ R9.1
-def str_arms(fn):
-    """string-literal arms of the match on the function's parameter: {literal: body node}, catch-all arm"""
-    for m in synq.matches_in(fn.body):
-        lits = {}
-        catch = None
+def str_table(fn):
+    """The function read as a table over its string parameter: ({literal: entry}, catch-all entry, anchor node).
+    entry = dict(node, body, binds): `body` is the value expression, `binds` the names bound to the matched word.
+    Understood: `match p { "a" | "b" => .., kw @ ("c" | "d") => .., s => .. }` (first match wins) and leading
+    `if p == "a" || p == "b" { return ..; }` statements; the rest of the body is the catch-all."""
+    params = [x for x in fn.params if x and x != "self"]
+    lits = {}
+    catch = None
+    anchor = fn.node
+
+    def lit_alts(p, binds):
+        """[(literal or None for a catch-all, binds)] of a pattern"""
+        k = p.get("k")
+        if k == "p_or":
+            out = []
+            for c in p["cases"]:
+                out += lit_alts(c, binds)
+            return out
+        if k in ("p_ref", "p_paren"):
+            return lit_alts(p.get("pat") or p.get("sub"), binds)
+        if k == "p_ident":
+            if p.get("sub"):
+                return lit_alts(p["sub"], binds + [p["name"]])
+            return [(None, binds + [p["name"]])]
+        if k == "p_wild":
+            return [(None, binds)]
+        if k == "p_lit" and isinstance(p.get("lit"), dict) and p["lit"].get("k") == "str":
+            return [(p["lit"]["v"], binds)]
+        return [("\x00?", binds)]
+
+    def cond_lits(c):
+        """literals of `p == "a" || "b" == p || matches!(p, "a" | "b")`, else None"""
+        if c.get("k") == "binary" and c["op"] == "||":
+            l, r = cond_lits(c["l"]), cond_lits(c["r"])
+            return None if l is None or r is None else l + r
+        if c.get("k") == "binary" and c["op"] == "==":
+            for x, y in ((c["l"], c["r"]), (c["r"], c["l"])):
+                if x.get("k") == "path" and x["path"] in params and y.get("k") == "str":
+                    return [y["v"]]
+        if c.get("k") == "macro" and synq.short(c["name"]) == "matches" and c.get("expr") is not None and \
+                c["expr"].get("k") == "path" and c["expr"]["path"] in params and c.get("pat") is not None:
+            al = lit_alts(c["pat"], [])
+            if all(isinstance(w, str) and not w.startswith("\x00") for w, _ in al):
+                return [w for w, _ in al]
+        return None
+
+    def from_match(m):
+        nonlocal catch, anchor
+        anchor = m
         for a in m["arms"]:
-            alts = synq.pat_alts(a["pat"])
-            for p in alts:
-                lit = p.get("lit") if p.get("k") == "p_lit" else None
-                if isinstance(lit, dict) and lit.get("k") == "str":
-                    lits[lit["v"]] = a
-                elif p.get("k") in ("p_ident", "p_wild"):
-                    catch = a
-        if lits:
-            return m, lits, catch
-    raise mir.AnchorMissing(f"{fn.name}: no match with string-literal arms")
+            if a.get("guard") is not None:
+                continue
+            for w, binds in lit_alts(a["pat"], []):
+                ent = dict(node=a, body=a["body"], binds=binds)
+                if w is None:
+                    if catch is None:
+                        catch = ent
+                elif catch is None:
+                    lits.setdefault(w, ent)
+
+    stmts = fn.body.get("stmts") or []
+    for i, st in enumerate(stmts):
+        e = st.get("e") if st.get("k") == "expr_stmt" else None
+        last = i == len(stmts) - 1
+        if e is not None and e.get("k") == "if" and e.get("else") is None and e["cond"].get("k") != "let_cond":
+            ws = cond_lits(e["cond"])
+            ts = e["then"].get("stmts") or []
+            if ws and len(ts) == 1 and ts[0].get("k") == "expr_stmt" and ts[0]["e"].get("k") == "return":
+                for w in ws:
+                    lits.setdefault(w, dict(node=e, body=ts[0]["e"].get("e"), binds=[]))
+                continue
+        if e is not None and last and not st.get("semi"):
+            if e.get("k") == "match" and e["scrut"].get("k") == "path" and e["scrut"]["path"] in params:
+                from_match(e)
+            else:
+                catch = dict(node=e, body=e, binds=[])
+            continue
+        if st.get("k") == "let":
+            continue
+        break
+    if not lits:
+        raise mir.AnchorMissing(f"{fn.name}: no string-literal case found")
+    return lits, catch, anchor
 
 
-def arm_value(arm, fn, word):
-    """the string an arm evaluates to for the matched word (`"x_".into()`, `format!("{name}_")`), else None"""
-    b = arm["body"]
+def arm_value(ent, fn, word):
+    """the string an entry evaluates to for the matched word (`"x_".into()`, `format!("{kw}_")`), else None"""
+    b = ent["body"]
+    if b is None:
+        return None
     t = tail_expr(b) if b.get("k") == "block" else b
     if t is None:
         return None
@@ -1146,7 +1239,7 @@ def arm_value(arm, fn, word):
     for a in sh:
         if a[0] == "lit":
             out += a[1]
-        elif a[0] == CODE and a[1] in params or a[0] == CODE and a[1] in pat_names(arm["pat"]):
+        elif a[0] == CODE and (a[1] in params or a[1] in ent["binds"]):
             out += word
         else:
             return None
@@ -1156,8 +1249,8 @@ def arm_value(arm, fn, word):
 def r91(rep):
     f = synq.find_fn(LIB, "to_rust_ident")
     rep.saw(f"{LIB}::to_rust_ident")
-    m, lits, catch = str_arms(f)
-    rep.floor("R9.1", "string arms of to_rust_ident", len(lits), 50)
+    lits, catch, m = str_table(f)
+    rep.floor("R9.1", "string literals handled by to_rust_ident", len(lits), 50)
     # the repository's edition (the proc macro output is compiled with the user's edition; the workspace and the
     # test harness use 2024)
     relevant = [(w, c, ref, ed) for (w, c, ref, ed) in KEYWORDS if WIT_WORD_RE.match(w) and ed <= EDITION]
@@ -1169,7 +1262,7 @@ def r91(rep):
         ok = a is not None and val is not None and val != w and val not in KW_SET
         rep.ob("R9.1", f"to_rust_ident escapes {c} keyword `{w}`", ok,
                (f"no string arm for \"{w}\": a WIT item named `{w}` is emitted verbatim ({ref}; reserved since "
-                f"edition {ed})") if a is None else f"arm yields {val!r}", f.loc(a) if a else f.loc(m))
+                f"edition {ed})") if a is None else f"arm yields {val!r}", f.loc(a["node"]) if a else f.loc(m))
         if val is not None:
             images[w] = val
     # images are fresh: not the image of another WIT identifier and pairwise distinct
@@ -1177,13 +1270,13 @@ def r91(rep):
         fresh = not USER_RE.match(val) and (re.fullmatch(r"[A-Za-z_][A-Za-z0-9_]*", val) is not None or (
             val == "r#" + w and w not in ("self", "super", "crate")))
         rep.ob("R9.1", f"escape image of `{w}` is an identifier no other WIT name maps to", fresh,
-               f"`{w}` -> `{val}`", f.loc(lits[w]), nontrivial=False)
+               f"`{w}` -> `{val}`", f.loc(lits[w]["node"]), nontrivial=False)
     rep.ob("R9.1", "escape images are pairwise distinct", len(set(images.values())) == len(images), "", f.loc(m))
     # arms for words that are not keywords would rename ordinary identifiers: must still be fresh (no obligation on
     # their presence); the catch-all converts with snake case
     cv = render(catch["body"]) if catch else ""
     rep.ob("R9.1", "the catch-all arm of to_rust_ident is heck's snake case of the name",
-           catch is not None and cv.endswith(".to_snake_case()"), cv, f.loc(catch) if catch else f.loc(m))
+           catch is not None and cv.endswith(".to_snake_case()"), cv, f.loc(catch["node"]) if catch else f.loc(m))
 
 
 def r91_sites(rep):
@@ -1278,13 +1371,13 @@ def r91_sites(rep):
     rep.ob("R9.1", "CallInterface: the trait method name is emitted through to_rust_ident", ok, "", e.loc(ci.node))
     total = sum(len(synq.fn_calls(f_.body, "to_rust_ident")) for rel in (LIB, IFACE, BG) for f_ in synq.all_fns(rel)
                 if f_.body is not None and f_.name != "to_rust_ident")
-    rep.floor("R9.1", "to_rust_ident call sites in the Rust generator", total, 13)
+    rep.floor("R9.1", "to_rust_ident call sites in the Rust generator", total, 8)
 
 
 def r91_types(rep):
     f = synq.find_fn(LIB, "to_upper_camel_case")
     rep.saw(f"{LIB}::to_upper_camel_case")
-    m, lits, catch = str_arms(f)
+    lits, catch, m = str_table(f)
     # the trait generated for an exported interface / world
     ge = synq.find_fn(IFACE, "generate_exports", self_ty="InterfaceGenerator")
     trait_names = [s["v"] for s in synq.strings(ge.body) if s["v"] == "Guest"]
@@ -1293,14 +1386,14 @@ def r91_types(rep):
     val = arm_value(a, f, "guest") if a is not None else None
     rep.ob("R9.1", "to_upper_camel_case remaps the WIT type name `guest` away from the trait name `Guest`",
            a is not None and val is not None and val != "Guest" and not CAMEL_RE.match(val),
-           f"arm yields {val!r}", f.loc(a) if a else f.loc(m))
+           f"arm yields {val!r}", f.loc(a["node"]) if a else f.loc(m))
     # `Self` is a strict keyword and the upper camel image of the valid WIT name `self`
     a = lits.get("self")
     val = arm_value(a, f, "self") if a is not None else None
     rep.ob("R9.1", "to_upper_camel_case remaps the WIT type name `self` away from the keyword `Self`",
            a is not None and val not in (None, "Self"),
            "no string arm for \"self\": `record self {..}` is emitted as `pub struct Self`" if a is None else f"{val!r}",
-           f.loc(a) if a else f.loc(m))
+           f.loc(a["node"]) if a else f.loc(m))
     # references to a named type go through result_name / param_name, which use the remapping function; every
     # definition of a named type must use the same function (or modes_of, which calls result_name / param_name)
     for nm in ("result_name", "param_name"):
@@ -1408,7 +1501,7 @@ def r92(rep, state):
     emit0 = synq.find_fn(BG, "emit", self_ty="FunctionBindgen")
     m0 = synq.find_match(emit0.body, "Instruction::", min_arms=20)
     V = sorted({synq.short(h) for a in synq.arms(m0) for h in a.heads if h != "_"})
-    rep.floor("R9.2", "Instruction variants matched by FunctionBindgen::emit", len(V), 97)
+    rep.floor("R9.2", "Instruction variants matched by FunctionBindgen::emit", len(V), 90)
     ph = abi_phases(V)
     rep.saw(f"{ABI}::Generator::call")
     rep.ob("R9.2", "A1: GetArg is constructed only by Generator::call and Generator::post_return",
@@ -1441,7 +1534,7 @@ def r92(rep, state):
         else:
             phase = "other"
         units.append(("emit " + "|".join(heads), phase, emit, unit_streams(em, emit, a.node["body"]), emit.loc(a.node)))
-    rep.floor("R9.2", "arms of FunctionBindgen::emit", len(units), 85)
+    rep.floor("R9.2", "arms of FunctionBindgen::emit", len(units), 60)
     rp = synq.find_fn(BG, "return_pointer", self_ty="FunctionBindgen")
     rep.saw(f"{BG}::return_pointer")
     units.append(("return_pointer", "callprep", rp, unit_streams(em, rp), rp.loc()))
@@ -1492,8 +1585,8 @@ def r92(rep, state):
                 if uname not in d["sites"]:
                     d["sites"].append(uname)
     state["fams"] = fams
-    rep.floor("R9.2", "binders found in the Rust templates", nbind, 90)
-    rep.floor("R9.2", "distinct (name, class) binder families", len(fams), 44)
+    rep.floor("R9.2", "binders found in the Rust templates", nbind, 60)
+    rep.floor("R9.2", "distinct (name, class) binder families", len(fams), 30)
     for (name, cls), d in sorted(fams.items()):
         if cls == "function-scope":
             inst = f"function-scope temporary `{name}` is outside the image of to_rust_ident"
@@ -1707,20 +1800,64 @@ def r93(rep):
     v3 = async_if(gr, lambda s: re.search(r"\[async-lift\]\{\w+\}", s) is not None, lambda s: "[async-lift]" not in s)
     rep.ob("R9.3", "the export name carries `[async-lift]` exactly when the async variant is generated", v3 is not None,
            "", gr.loc(v3) if v3 else gr.loc())
-    # every export_name attribute starts with the export prefix option
+    # every export_name attribute starts with the export prefix option; holes that are plain locals are read through
+    # their `let` initialiser (format!, `+` concatenation, clone / as_str / to_string), transitively
+    STRIP = {"clone", "as_str", "to_string", "to_owned", "into", "as_ref"}
+
+    def flat(f, e, depth=0):
+        """[('lit', text) | ('hole', terminal expression)] of the text an expression evaluates to"""
+        orig = e
+        while e is not None and (e.get("k") == "ref" or (e.get("k") == "mcall" and e["method"] in STRIP and not e["args"])):
+            e = e["e"] if e.get("k") == "ref" else e["recv"]
+        if e is None or depth > 8:
+            return [("hole", orig)]
+        k = e.get("k")
+        if k == "str":
+            return [("lit", e["v"])]
+        if k == "macro" and synq.short(e["name"]) == "format" and e.get("args"):
+            out = []
+            for kind, v in template_pieces(synq.Fmt(e)):
+                out += [("lit", v)] if kind == "lit" else flat(f, v, depth + 1)
+            return out
+        if k == "binary" and e["op"] == "+":
+            return flat(f, e["l"], depth + 1) + flat(f, e["r"], depth + 1)
+        if k == "path" and "::" not in e["path"]:
+            r = resolve_name(f, e["path"], start(e))
+            if r is not None and r[0] == "let" and r[1]["pat"].get("k") == "p_ident" and not r[1]["pat"].get("mut") \
+                    and r[1].get("init") is not None:
+                init = r[1]["init"]
+                sub = flat(f, init, depth + 1)
+                if len(sub) == 1 and sub[0][0] == "hole" and sub[0][1] is init:
+                    return [("hole", init)]
+                return sub
+        return [("hole", orig)]
+
     en = []
     for f in (gr, gx):
         for fm in synq.fmts(f.body):
-            if fm.template:
-                for mm in re.finditer(r'export_name\s*=\s*"(?:\{(\w+)\})?([^"]*)', fm.template):
-                    en.append((f, fm, mm.group(1), mm.group(2)))
+            if not fm.template or "export_name" not in fm.template:
+                continue
+            pieces = []
+            for kind, v in template_pieces(fm):
+                pieces += [("lit", v)] if kind == "lit" else flat(f, v)
+            holes = []
+            text = ""
+            for kind, v in pieces:
+                if kind == "lit":
+                    text += v
+                else:
+                    text += "\x01%d\x01" % len(holes)
+                    holes.append(v)
+            for mm in re.finditer(r'export_name\s*=\s*"([^"]*)"', text):
+                body = mm.group(1)
+                lead = re.match(r"\x01(\d+)\x01", body)
+                rest = body[lead.end():] if lead else body
+                en.append((f, fm, holes[int(lead.group(1))] if lead else None, re.sub(r"\x01\d+\x01", "*", rest)))
     rep.floor("R9.3", "export_name attributes in the Rust templates", len(en), 4)
-    for f, fm, hole, rest in en:
-        init = local_init(f, hole, start(fm.template_node)) if hole else None
-        t = re.sub(r"\{\{|\}\}|\{\w+\}", "*", rest)
+    for f, fm, init, t in en:
         rep.ob("R9.3", f"{f.name}: export_name `<prefix>{t[:40]}` starts with the export_prefix option",
                init is not None and render(init) == 'self.r#gen.opts.export_prefix.as_deref().unwrap_or("")',
-               render(init) if init is not None else "no leading hole", f.loc(fm.template_node))
+               render(init)[:100] if init is not None else "no leading hole", f.loc(fm.template_node))
     # the macro forwards the option
     mc = synq.find_fn(MACRO, "parse", self_ty="Config")
     asg = [n for n in synq.walk(mc.body) if n.get("k") == "assign" and n["l"].get("k") == "field" and
@@ -1847,8 +1984,8 @@ def r95(rep):
                     d = fams.setdefault((f.name, kw, b.name), dict(ok=True, why=why, loc=f.loc(node)))
                     if not ok:
                         d.update(ok=False, why=why, loc=f.loc(node))
-    rep.floor("R9.5", "generator loops that write Rust items", nloops, 18)
-    rep.floor("R9.5", "items written per iteration", nitems, 46)
+    rep.floor("R9.5", "generator loops that write Rust items", nloops, 12)
+    rep.floor("R9.5", "items written per iteration", nitems, 30)
     for (fn_, kw, name), d in sorted(fams.items()):
         rep.ob("R9.5", f"{fn_}: per-iteration item `{kw} {name}` is element-named or enclosed in a scope of its iteration",
                d["ok"], d["why"], d["loc"])
@@ -1889,7 +2026,7 @@ def r94(rep, state):
                 hits.setdefault(w, dict(sites=[], loc=loc))
                 if uname not in hits[w]["sites"]:
                     hits[w]["sites"].append(uname)
-    rep.floor("R9.4", "literal words scanned in the Rust templates", ntok, 500)
+    rep.floor("R9.4", "literal words scanned in the Rust templates", ntok, 400)
     for w in PRELUDE_TYPE_NS + PRELUDE_VALUE_NS:
         if not CAMEL_RE.match(w):
             continue
